@@ -279,7 +279,7 @@ func runPlz(in inst, labels []string, nocache, rebuild bool, hookTarget string, 
 	done := make(chan error, 1)
 	go func() { done <- cmd.Wait() }()
 	var err error
-	timeout := time.After(180 * time.Second)
+	timeout := time.After(300 * time.Second)
 	var killer <-chan time.Time
 	if killAfter > 0 {
 		killer = time.After(killAfter)
@@ -325,6 +325,25 @@ func runPlz(in inst, labels []string, nocache, rebuild bool, hookTarget string, 
 	}
 	return res
 }
+
+// runPlain runs a build that is expected to run to its end; when the harness's own time limit strikes (overloaded
+// machine) the instance is reset by `reset` and the run repeated, alone, up to three times.
+func runPlain(in inst, labels []string, nocache, rebuild bool, hookTarget string, reset func()) runRes {
+	r := runPlz(in, labels, nocache, rebuild, hookTarget, -1, 0)
+	for i := 0; i < 3 && timedOut(r.out); i++ {
+		retryMu.Lock()
+		if reset != nil {
+			reset()
+		}
+		r = runPlz(in, labels, nocache, rebuild, hookTarget, -1, 0)
+		retryMu.Unlock()
+	}
+	return r
+}
+
+var retryMu sync.Mutex
+
+func timedOut(s string) bool { return strings.Contains(s, "HARNESS-TIMEOUT") }
 
 // hook log line "op path" -> hook point name ("out-rename:1")
 func pointName(l string) string {
@@ -453,7 +472,7 @@ func (f *famInfo) init(s scn) {
 		for _, tree := range []string{"T0", "T1"} {
 			in := inst{nextDir("clean")}
 			s.writeSources(in, tree)
-			r := runPlz(in, []string{"//p:t"}, s.cache == "n", false, "", -1, 0)
+			r := runPlain(in, []string{"//p:t"}, s.cache == "n", false, "", func() { os.RemoveAll(filepath.Join(in.repo(), "plz-out")) })
 			if r.rc != 0 {
 				f.err = "clean build of " + tree + " failed: " + r.out
 				return
@@ -501,7 +520,7 @@ func (f *famInfo) template(s scn) (inst, string) {
 		}
 		s.writeSources(t.in, tree)
 		if s.pre != "none" {
-			r := runPlz(t.in, []string{"//p:t"}, s.cache == "n", false, "", -1, 0)
+			r := runPlain(t.in, []string{"//p:t"}, s.cache == "n", false, "", func() { os.RemoveAll(filepath.Join(t.in.repo(), "plz-out")) })
 			if r.rc != 0 {
 				t.err = "pre-state build failed: " + r.out
 				return
@@ -1103,9 +1122,37 @@ func (d *dyingReader) Read(p []byte) (int, error) {
 	return n, nil
 }
 
+// crash points inside fs.WriteFile (hook src/fs/c32_verif.go): destination path -> "<point>-<p|k>"
+var wfPoints sync.Map
+
+func init() {
+	fs.WriteFileHookForVerif = func(point, path string) {
+		v, ok := wfPoints.Load(path)
+		if !ok {
+			return
+		}
+		want := v.(string)
+		if !strings.HasPrefix(want, point+"-") {
+			return
+		}
+		if strings.HasSuffix(want, "-k") {
+			syscall.Kill(os.Getpid(), syscall.SIGKILL)
+			select {}
+		}
+		panic("WriteFile dies at " + point)
+	}
+}
+
 func wfChild(dir string, data []byte, mode, chunk, n int, how string) {
 	defer func() { recover() }()
-	fs.WriteFile(&dyingReader{data: data, chunk: chunk, limit: n, how: how}, filepath.Join(dir, "dest"), os.FileMode(mode))
+	dest := filepath.Join(dir, "dest")
+	rd := &dyingReader{data: data, chunk: chunk, limit: n, how: how}
+	if strings.Contains(how, "-") { // crash at a point of WriteFile itself: the reader delivers everything
+		rd.limit = len(data) + 1
+		wfPoints.Store(dest, how)
+		defer wfPoints.Delete(dest)
+	}
+	fs.WriteFile(rd, dest, os.FileMode(mode))
 }
 
 func runWf(op string, f []string) caseRes {
@@ -1124,7 +1171,9 @@ func runWf(op string, f []string) caseRes {
 	chunk, e2 := strconv.Atoi(f[4])
 	n, e3 := strconv.Atoi(f[5])
 	how := f[6]
-	if e1 != nil || e2 != nil || e3 != nil || chunk <= 0 || (how != "p" && how != "k") {
+	okHow := map[string]bool{"p": true, "k": true, "close-p": true, "close-k": true, "rename-p": true, "rename-k": true, "renamed-p": true, "renamed-k": true}
+	atPoint := strings.Contains(how, "-")
+	if e1 != nil || e2 != nil || e3 != nil || chunk <= 0 || !okHow[how] {
 		res.out = "bad-op"
 		return res
 	}
@@ -1136,12 +1185,12 @@ func runWf(op string, f []string) caseRes {
 		must(os.WriteFile(filepath.Join(dir, "dest"), old, 0o644))
 		must(os.Chmod(filepath.Join(dir, "dest"), 0o644))
 	}
-	if how == "k" {
+	if strings.HasSuffix(how, "k") {
 		cmd := exec.Command(os.Args[0])
-		cmd.Env = append(os.Environ(), "C32_WF_CHILD="+strings.Join([]string{dir, f[2], f[3], f[4], f[5]}, " "))
+		cmd.Env = append(os.Environ(), "C32_WF_CHILD="+strings.Join([]string{dir, f[2], f[3], f[4], f[5], how}, " "))
 		cmd.Run()
 	} else {
-		wfChild(dir, data, mode, chunk, n, "p")
+		wfChild(dir, data, mode, chunk, n, how)
 	}
 	show := func(p string) string {
 		st, err := os.Lstat(p)
@@ -1168,7 +1217,7 @@ func runWf(op string, f []string) caseRes {
 		res.fails = append(res.fails, oracleFail{"writefile-stray-file", op + " # several temporaries"})
 	}
 	res.out = "dest=" + dest + " temp=" + temp
-	res.nontrivial = n <= len(data)
+	res.nontrivial = n <= len(data) || atPoint
 	// direct oracle: old complete content or new complete content
 	em := mode
 	if em == 0 {
@@ -1181,10 +1230,15 @@ func runWf(op string, f []string) caseRes {
 	if dest != oldS && dest != newS {
 		res.fails = append(res.fails, oracleFail{"writefile-destination-torn", op + " # dest " + dest})
 	}
-	if n > len(data) && dest != newS {
+	if dest != oldS && dest != newS && strings.HasPrefix(dest, lib.Hex(string(data))+":") && len(data) > 0 {
+		// complete new content under a mode nobody asked for (the temporary's 0600): a binary output left like this
+		// is trusted by its content hash and stays non-executable
+		res.fails[len(res.fails)-1].class = "writefile-destination-complete-with-wrong-mode"
+	}
+	if (n > len(data) && !atPoint && dest != newS) || (strings.HasPrefix(how, "renamed") && dest == oldS && oldS != newS) {
 		res.fails = append(res.fails, oracleFail{"writefile-incomplete", op + " # dest " + dest})
 	}
-	if n <= len(data) {
+	if n <= len(data) || atPoint {
 		res.counts = append(res.counts, "wf-crash-"+how)
 	} else {
 		res.counts = append(res.counts, "wf-complete")
@@ -1273,6 +1327,18 @@ func runOp(op string) caseRes {
 	return caseRes{op: op, out: "bad-op"}
 }
 
+func caseTimedOut(c caseRes) bool {
+	if timedOut(c.out) {
+		return true
+	}
+	for _, f := range c.fails {
+		if timedOut(f.detail) {
+			return true
+		}
+	}
+	return false
+}
+
 func runAll(r *lib.Run, ops []string, par int) {
 	out := make([]caseRes, len(ops))
 	var wg sync.WaitGroup
@@ -1284,6 +1350,12 @@ func runAll(r *lib.Run, ops []string, par int) {
 			defer wg.Done()
 			defer func() { <-sem }()
 			out[i] = runOp(ops[i])
+			// a plz run that hit the harness's own time limit says nothing about plz: repeat the case alone (3 times)
+			for k := 0; k < 3 && caseTimedOut(out[i]); k++ {
+				retryMu.Lock()
+				out[i] = runOp(ops[i])
+				retryMu.Unlock()
+			}
 		}(i)
 	}
 	wg.Wait()
@@ -1339,7 +1411,11 @@ func main() {
 		mode, _ := strconv.Atoi(f[2])
 		chunk, _ := strconv.Atoi(f[3])
 		n, _ := strconv.Atoi(f[4])
-		wfChild(f[0], []byte(lib.UnHex(f[1])), mode, chunk, n, "k")
+		how := "k"
+		if len(f) > 5 {
+			how = f[5]
+		}
+		wfChild(f[0], []byte(lib.UnHex(f[1])), mode, chunk, n, how)
 		os.Exit(0)
 	}
 	r := lib.Start()
@@ -1477,6 +1553,13 @@ func main() {
 			step := 1
 			if len(w.data) > 1000 {
 				step = 997
+			}
+			for _, pt := range []string{"close", "rename", "renamed"} {
+				how := pt + "-p"
+				if rng.Chance(r.N(10, 40)) {
+					how = pt + "-k"
+				}
+				ops = append(ops, fmt.Sprintf("wf %s %s %d %d %d %s", old, lib.Hex(w.data), w.mode, chunk, len(w.data)+1, how))
 			}
 			for n := 0; n <= len(w.data)+1; n += step {
 				how := "p"
